@@ -70,7 +70,15 @@ func VerifH15() {
 		}
 		return Prepared(NewStatement(fn, WithColumns(vTextColumns(me.cols)))), nil
 	}
-	global := Parameters{"app": "v"}
+	// configuration: configured parameter map nil / empty but non-nil / one entry
+	var global Parameters
+	gkind := vChoose(3)
+	switch gkind {
+	case 1:
+		global = Parameters{}
+	case 2:
+		global = Parameters{"app": "v"}
+	}
 	opts := []OptionFn{MessageBufferSize(64), GlobalParameters(global), Version("15"),
 		SessionMiddleware(func(ctx context.Context) (context.Context, error) { return ctx, nil })}
 	extended := nondetBool() // configuration: with or without a type extension registered
@@ -169,7 +177,14 @@ func VerifH15() {
 	}
 	check("conn1-own-user", c1.out, u1)
 	check("conn2-own-user", c2.out, u2)
-	vAssert("global-parameters-untouched", len(global) == 1 && global["app"] == "v")
+	if gkind == 2 {
+		vAssert("global-parameters-untouched", len(global) == 1 && global["app"] == "v")
+	} else {
+		vAssert("global-parameters-untouched", len(global) == 0)
+		if gkind == 1 {
+			vReach("empty-configured-map")
+		}
+	}
 	if st[0].rows && st[1].rows && (ext1 || sim1) && (ext2 || sim2) {
 		vReach("both-encode-rows")
 	}
